@@ -26,6 +26,8 @@ type vmEntry struct {
 
 type vmOp struct {
 	del      bool
+	rng      bool   // DeleteRange [key, end): the end key is exclusive (pebble's contract)
+	end      []byte
 	key, val []byte
 }
 
@@ -65,6 +67,7 @@ var (
 //verif:model (*github.com/cockroachdb/pebble.DB).NewIter = vmDBNewIter
 //verif:model (*github.com/cockroachdb/pebble.Batch).Set = vmBatchSet
 //verif:model (*github.com/cockroachdb/pebble.Batch).Delete = vmBatchDelete
+//verif:model (*github.com/cockroachdb/pebble.Batch).DeleteRange = vmBatchDeleteRange
 //verif:model (*github.com/cockroachdb/pebble.Batch).Commit = vmBatchCommit
 //verif:model (*github.com/cockroachdb/pebble.DB).Set = vmDBSet
 //verif:model (*github.com/cockroachdb/pebble.DB).Delete = vmDBDelete
@@ -112,6 +115,12 @@ func vmBatchDelete(b *pebble.Batch, key []byte, _ *pebble.WriteOptions) error {
 	return nil
 }
 
+func vmBatchDeleteRange(b *pebble.Batch, start, end []byte, _ *pebble.WriteOptions) error {
+	st := vmBatches[b]
+	st.ops = append(st.ops, vmOp{rng: true, key: append([]byte(nil), start...), end: append([]byte(nil), end...)})
+	return nil
+}
+
 func vmBatchCommit(b *pebble.Batch, o *pebble.WriteOptions) error {
 	st := vmBatches[b]
 	kv := st.kv
@@ -147,6 +156,17 @@ func vmDBDelete(db *pebble.DB, key []byte, o *pebble.WriteOptions) error {
 var vhErrCrashed = storage.ErrContentNotFound
 
 func (kv *vmKV) apply(op vmOp) {
+	if op.rng {
+		var keep []vmEntry
+		for _, e := range kv.live {
+			if bytes.Compare(e.key, op.key) >= 0 && bytes.Compare(e.key, op.end) < 0 {
+				continue
+			}
+			keep = append(keep, e)
+		}
+		kv.live = keep
+		return
+	}
 	for i, e := range kv.live {
 		c := bytes.Compare(e.key, op.key)
 		if c == 0 {
@@ -278,5 +298,17 @@ func vhStorage(s *vhState, nodeID [32]byte, capBytes uint64, radius *uint256.Int
 
 // vhBE: a uint256 as 32 big-endian bytes.
 func vhBE(x *uint256.Int) []byte { b := x.Bytes32(); return b[:] }
+
+// vhByteSymmetric: the 32 bytes read the same forwards and backwards, i.e. their big-endian and
+// little-endian readings are the same number (the region the known finding KF-C06-2 cannot touch).
+func vhByteSymmetric(b []byte) bool {
+	ok := true
+	for i := 0; i < 16; i++ {
+		if b[i] != b[31-i] {
+			ok = false
+		}
+	}
+	return ok
+}
 
 const vhCap = 1_000_000 // 1 MB: the capacity the repository's own tests use; 5% = 50_000
